@@ -630,6 +630,10 @@ class ElfFile:
                             v.offset = None
                 stack.extend((c, d) for c in d.children)
             u.offset = u.next_offset = u.abbrev_offset = None
+        order = getattr(self, 'abbrev_order', None)
+        if order is not None:
+            # placement of the tables in .debug_abbrev, as a permutation of their first-use order
+            tables = [tables[i] for i in order]
         self.abbrev_tables = tables
         for t in tables:
             t.offset = None
